@@ -7,7 +7,7 @@
 # Writes /verif/seeded/CONFIRM.txt. A row "gen=0" is a miss to look at; "seed=0" means the seed should be re-harvested.
 S=${1:-/tmp/scr}; SEED=${2:-0}; shift; shift
 NAMES="$@"
-[ -z "$NAMES" ] && NAMES=$(ls -d /verif/seeded/C* | xargs -n1 basename)
+[ -z "$NAMES" ] && NAMES=$(ls -d /verif/seeded/C[0-9]* | xargs -n1 basename)
 /verif/tools/scratch_setup.sh $S >/dev/null 2>&1
 OUT=/verif/seeded/CONFIRM.txt
 if [ $# -eq 0 ]; then
